@@ -403,7 +403,12 @@ fn read_def_user_function(cur: &mut SourceCursor, song: &mut Song) -> Token {
         _ => {
             // system error to analyze function in preprocess
             read_error_cmd(cur, song, &format!("(System error) Define Function: {}", func_name));
-            0
+            // the pre-scan did not register this definition (it stops at the word END also inside a '#' comment or a
+            // string): register it now instead of overwriting function 0 (or indexing an empty table)
+            let id = song.functions.len();
+            song.variables_insert(&func_name, SValue::UserFunc(id));
+            song.functions.push(SFunction::new(&func_name, vec![], id, lineno));
+            id
         }
     };
     // register function to song.functions
